@@ -112,7 +112,7 @@ fn ts(x: i64) -> taskchampion::chrono::DateTime<Utc> {
 
 /// derive the model's dependency map: for tasks in the working set, `dep_<uuid>` keys whose
 /// target exists with status pending
-fn model_depmap(tasks: &model::TaskSet, ws: &[Option<Uuid>]) -> BTreeSet<(Uuid, Uuid)> {
+pub(crate) fn model_depmap(tasks: &model::TaskSet, ws: &[Option<Uuid>]) -> BTreeSet<(Uuid, Uuid)> {
     let mut e = BTreeSet::new();
     for u in ws.iter().flatten() {
         if let Some(p) = tasks.get(u) {
